@@ -29,65 +29,127 @@ open Ledger.Repl
 /-- Between two resets the exporter sees a `Chain`: non-empty contiguous batches,
     each starting at most right after the highest id received so far (a first
     delivery continues without a gap, a redelivery restarts at an id already
-    received), and every id up to the high-water mark has been received. -/
-theorem export_in_order_no_gaps {c : Cfg} (g : Good c) {s : State} (r : Reach c s) :
+    received), and every id up to the high-water mark has been received. Holds
+    when every page goes to the exporter in one call (`SingleChunk`: no
+    `maxItems`, or `maxItems ≥` page size). -/
+theorem export_in_order_no_gaps {c : Cfg} (g : Good c) (sc : SingleChunk c) {s : State} (r : Reach c s) :
     Chain s.recv s.delivHW ∧ ∀ k, 1 ≤ k → k ≤ s.delivHW → Delivered s k :=
-  ⟨(inv_reach g r).chain, fun _ h1 h2 => (inv_reach g r).chain.covers h1 h2⟩
+  ⟨(inv_reach g r).chain sc, fun _ h1 h2 => ((inv_reach g r).chain sc).covers h1 h2⟩
 
-/-- Step form: an `Accept` that reaches the exporter hands over exactly the ids
-    `lo+1..hi` right after the handler's cursor, `lo` is at most the highest id
-    received since the last reset, the logs exist. Nothing else adds to `recv`. -/
+/-- Step form, every batching configuration: an exporter call that is not a
+    whole-call failure hands over exactly one contiguous chunk `pos+1..e` of the
+    page `lo+1..hi` the handler fetched right after its cursor `lo`; the cursor is
+    at most the highest id received since the last reset, the logs exist. So a gap
+    can only lie inside the page being exported. With `SingleChunk` the chunk is
+    the page and starts at most right after the highest id received. -/
 theorem export_step_contiguous {c : Cfg} (g : Good c) {s s' : State} {r : AcceptRes} (hr : Reach c s)
     (hs : step c s (.accept r) = some s') (hne : r ≠ .fail) :
-    ∃ lo hi, s'.recv = (lo, hi) :: s.recv ∧ lo ≤ s.delivHW ∧ lo < hi ∧ hi ≤ s.nLogs := by
-  obtain ⟨h, lo, hi, _, hh, _, hlo, hlt, hle, hrecv, _⟩ := accept_delivers (wf_reach hr) hs hne
+    ∃ lo pos e, s'.recv = (pos, e) :: s.recv ∧ lo ≤ s.delivHW ∧ lo ≤ pos ∧ pos < e ∧ e ≤ lo + c.ps ∧
+      e ≤ s.nLogs ∧ (SingleChunk c → pos = lo) := by
+  obtain ⟨h, lo, hi, m, pos, bad, hh, hpc, hlo, hlp, hpe, hehi, hle, hrecv, _⟩ :=
+    accept_delivers (wf_reach hr) hs hne
   have i := inv_reach g hr
   have := i.last_le h hh
   have := i.ack_le
-  exact ⟨lo, hi, hrecv, by omega, hlt, hle⟩
+  have he := i.expOk h hh
+  simp only [ExpOk, hpc] at he
+  exact ⟨lo, pos, chunkEnd c pos hi, hrecv, by omega, hlp, hpe, by omega, by omega, he.2⟩
 
 example : Good { ps := 2, sync := true, allowReset := true } := Or.inl rfl
 example : Good { ps := 2, sync := false, allowReset := false } := Or.inr rfl
+example : SingleChunk { ps := 2, sync := false, allowReset := false, maxItems := 0 } := Or.inl rfl
+example : SingleChunk { ps := 2, sync := false, allowReset := false, maxItems := 5 } := Or.inr (by decide)
 
 /-- non-vacuity: a reachable state of the code-as-is configuration in which two
     batches were received, the second one a redelivery after a stop/start -/
 example : ∃ s, Reach (Cfg.real 2) s ∧ s.recv = [(0, 2), (0, 2)] ∧ s.delivHW = 2 := by
-  refine ⟨_, reach_run (ls := [.append 3, .create, .fetch true, .accept .lost, .stop, .start, .fetch true,
-    .accept .ok]) Reach.init rfl, rfl, rfl⟩
+  refine ⟨_, reach_run (ls := [.append 3, .create, .fetch true, .tick, .accept .lost, .stop, .start,
+    .fetch true, .tick, .accept .ok]) Reach.init rfl, rfl, rfl⟩
+
+/-- The full statement, kept type-checked. -/
+def InOrderNoGaps (c : Cfg) : Prop := ∀ s, Reach c s → Chain s.recv s.delivHW
+
+/-- With `maxItems` below the page size "in order, no gaps" is FALSE for the code
+    as it is, reset or not: `Batcher.Accept` keeps sending the later chunks of a
+    page after an earlier chunk failed. `chunkGapTrace` (page 1..4, `maxItems = 2`):
+    the call with 1,2 fails, the call with 3,4 succeeds — the first batch the
+    exporter ever receives starts at id 3. -/
+theorem export_in_order_counterexample :
+    ∃ s, Reach (Cfg.real 100 2) s ∧ s.resets = 0 ∧ s.recv = [(2, 4)] ∧ ¬ Delivered s 1 := by
+  refine ⟨_, reach_run (ls := chunkGapTrace) Reach.init rfl, rfl, rfl, ?_⟩
+  rintro ⟨b, hb, h1, _⟩
+  have : b = (2, 4) := by simpa using (show b ∈ [(2, 4)] from hb)
+  subst this
+  simp at h1
+
+theorem export_in_order_false : ¬ InOrderNoGaps (Cfg.real 100 2) := by
+  intro h
+  obtain ⟨s, r, _, hrecv, _⟩ := export_in_order_counterexample
+  have hc := h s r
+  rw [hrecv] at hc
+  generalize hw : s.delivHW = w at hc
+  cases hc with
+  | cons _ hlo _ =>
+    rename_i hc0
+    have := hc0.hw_of_nil
+    omega
 
 /-! ## persisted ≤ acknowledged -/
 
-/-- The full statement, kept type-checked: in every reachable state the stored
-    cursor is at most the highest id acknowledged since the last reset. -/
-def PersistedLeAcked (c : Cfg) : Prop := ∀ s, Reach c s → s.persisted ≤ s.ackHW
+/-- The full statement, kept type-checked: in every reachable state every log up
+    to the stored cursor was acknowledged by the exporter ITSELF (item level, not
+    merely reported by `Accept`) since the last reset. -/
+def PersistedLeAcked (c : Cfg) : Prop := ∀ s, Reach c s → AckedUpTo s s.persisted
 
-/-- What holds: without reset, or with synchronous persistence. Also every write
-    still in flight and the in-memory cursor are bounded by the acknowledged id. -/
+/-- What holds: without reset, or with synchronous persistence. `ackHW` is the end
+    of the last page `Accept` reported as acknowledged; every write still in flight
+    and the in-memory cursor are bounded by it, and everything up to it was
+    acknowledged item by item (`AckedUpTo`). -/
 theorem persisted_le_acked_partial {c : Cfg} (g : Good c) {s : State} (r : Reach c s) :
     s.persisted ≤ s.ackHW ∧ (∀ v ∈ s.orphans ++ s.cur.toList, v ≤ s.ackHW) ∧
-      (∀ h, s.handler = some h → h.last ≤ s.ackHW) ∧ s.ackHW ≤ s.delivHW ∧ s.delivHW ≤ s.nLogs := by
+      (∀ h, s.handler = some h → h.last ≤ s.ackHW) ∧ s.ackHW ≤ s.delivHW ∧ s.delivHW ≤ s.nLogs ∧
+      AckedUpTo s s.ackHW := by
   have i := inv_reach g r
-  refine ⟨i.persisted_le, ?_, i.last_le, i.ack_le, i.deliv_le⟩
+  refine ⟨i.persisted_le, ?_, i.last_le, i.ack_le, i.deliv_le, i.ackedPre⟩
   intro v hv
   rcases List.mem_append.mp hv with h | h
   · exact i.orph_le v h
   · exact i.cur_le v (by simpa using h)
 
-theorem persisted_le_acked_good {c : Cfg} (g : Good c) : PersistedLeAcked c :=
-  fun _ r => (persisted_le_acked_partial g r).1
+theorem persisted_le_acked_good {c : Cfg} (g : Good c) : PersistedLeAcked c := by
+  intro s r k h1 h2
+  have p := persisted_le_acked_partial g r
+  exact p.2.2.2.2.2 k h1 (by have := p.1; omega)
+
+/-- **The batcher's acknowledgement rule**, every configuration (also the code as
+    it is): whenever an exporter call makes the handler's cursor advance, every log
+    the cursor passed was acknowledged by the exporter item by item — a whole-call
+    error or a single item-level error keeps the cursor where it is. -/
+theorem cursor_advances_only_over_acked {c : Cfg} {s s' : State} {r : AcceptRes} {h h' : Handler}
+    (hr : Reach c s) (hs : step c s (.accept r) = some s') (hh : s.handler = some h)
+    (hh' : s'.handler = some h') (hadv : h.last < h'.last) : ∀ k, h.last < k → k ≤ h'.last → Acked s' k :=
+  cursor_advance_acked (wf_reach hr) (clean_reach hr) hs hh hh' hadv
+
+/-- non-vacuity: page 1..3 in chunks of 2, item 2 refused once at item level: the
+    cursor stays at 0 although the exporter acknowledged 1 and 3; the retry then
+    acknowledges everything and the cursor moves to 3 -/
+example : ∃ s h, run (Cfg.real 100 2) State.init [.append 3, .create, .fetch true, .accept (.reject 1), .tick,
+    .accept .ok] = some s ∧ s.handler = some h ∧ h.last = 0 ∧ h.pc = .retry 0 3 false ∧ s.acked = [3, 1] :=
+  ⟨_, _, rfl, rfl, rfl, rfl, rfl⟩
 
 /-- `raceTrace` (see `Ledger/Repl/Spec.lean`): two logs, create, fetch [1,2], export
     ok (2 handed to the persister), `ResetPipeline`, and only then the in-flight
     `StorePipelineState(2)` executes. -/
 theorem persisted_le_acked_counterexample :
-    ∃ s, Reach (Cfg.real 100) s ∧ s.resets = 1 ∧ s.ackHW = 0 ∧ s.persisted = 2 :=
-  ⟨_, reach_run (ls := raceTrace) Reach.init rfl, rfl, rfl, rfl⟩
+    ∃ s, Reach (Cfg.real 100) s ∧ s.resets = 1 ∧ s.ackHW = 0 ∧ s.acked = [] ∧ s.persisted = 2 :=
+  ⟨_, reach_run (ls := raceTrace) Reach.init rfl, rfl, rfl, rfl, rfl⟩
 
 theorem persisted_le_acked_false : ¬ PersistedLeAcked (Cfg.real 100) := by
   intro h
-  obtain ⟨s, r, _, h0, h2⟩ := persisted_le_acked_counterexample
-  have := h s r
-  omega
+  obtain ⟨s, r, _, _, hacked, hp⟩ := persisted_le_acked_counterexample
+  have := h s r 1 (Nat.le_refl _) (by omega)
+  rw [hacked] at this
+  simp at this
 
 /-- the same schedule is impossible with the candidate fix: the write is drained
     before the reset, no `StorePipelineState` is left to execute afterwards -/
@@ -107,21 +169,22 @@ theorem reset_restarts_from_first {c : Cfg} {s s' : State} {l : Label} (r : Reac
 
 /-- …and in a `Good` configuration it stays that way: whatever happens next, the
     first batch the exporter receives after a reset starts at id 1. -/
-theorem reset_first_batch_starts_at_one {c : Cfg} (g : Good c) {s s' : State} {r : AcceptRes}
-    (hr : Reach c s) (hempty : s.recv = []) (hs : step c s (.accept r) = some s') (hne : r ≠ .fail) :
-    ∃ hi, s'.recv = [(0, hi)] ∧ 0 < hi := by
-  obtain ⟨lo, hi, hrecv, hlo, hlt, _⟩ := export_step_contiguous g hr hs hne
-  have hc := (inv_reach g hr).chain
+theorem reset_first_batch_starts_at_one {c : Cfg} (g : Good c) (sc : SingleChunk c) {s s' : State}
+    {r : AcceptRes} (hr : Reach c s) (hempty : s.recv = []) (hs : step c s (.accept r) = some s')
+    (hne : r ≠ .fail) : ∃ hi, s'.recv = [(0, hi)] ∧ 0 < hi := by
+  obtain ⟨lo, pos, e, hrecv, hlo, _, hlt, _, _, hsc⟩ := export_step_contiguous g hr hs hne
+  have hc := (inv_reach g hr).chain sc
   rw [hempty] at hc hrecv
   have := hc.hw_of_nil
-  have : lo = 0 := by omega
+  have := hsc sc
+  have : pos = 0 := by omega
   subst this
-  exact ⟨hi, hrecv, hlt⟩
+  exact ⟨e, hrecv, hlt⟩
 
 /-- non-vacuity: reset of a running pipeline with the fix, then the next export -/
 example : ∃ s, Reach { ps := 100, sync := true, allowReset := true } s ∧ s.resets = 1 ∧ s.recv = [(0, 2)] := by
-  refine ⟨_, reach_run (ls := [.append 2, .create, .fetch true, .accept .ok, .reset, .fetch true, .accept .ok])
-    Reach.init rfl, rfl, rfl⟩
+  refine ⟨_, reach_run (ls := [.append 2, .create, .fetch true, .tick, .accept .ok, .reset, .fetch true, .tick,
+    .accept .ok]) Reach.init rfl, rfl, rfl⟩
 
 /-- With the code as it is the guarantee is lost: `raceTrace2` = the race schedule
     followed by a stop/start of the pipeline (the restart reads the stale
@@ -129,9 +192,9 @@ example : ∃ s, Reach { ps := 100, sync := true, allowReset := true } s ∧ s.r
     exporter has received log 3 only; logs 1 and 2 are behind the cursor. -/
 theorem reset_restarts_from_first_counterexample :
     Reach (Cfg.real 100) raceState2 ∧ raceState2.resets = 1 ∧ raceState2.recv = [(2, 3)] ∧
-      ¬ Delivered raceState2 1 ∧ ¬ Delivered raceState2 2 := by
-  refine ⟨reach_run (ls := raceTrace2) Reach.init rfl, rfl, rfl, ?_, ?_⟩ <;>
-    simp [Delivered, raceState2]
+      ¬ Delivered raceState2 1 ∧ ¬ Delivered raceState2 2 ∧ ¬ Acked raceState2 1 ∧ ¬ Acked raceState2 2 := by
+  refine ⟨reach_run (ls := raceTrace2) Reach.init rfl, rfl, rfl, ?_, ?_, ?_, ?_⟩ <;>
+    simp [Delivered, Acked, raceState2]
 
 /-! ## at least once -/
 
@@ -139,34 +202,37 @@ theorem reset_restarts_from_first_counterexample :
     created pipeline and every committed log `k` there is a finite sequence of
     enabled, failure-free steps — `fetch ok`, `accept ok`, `persist ok`, timer
     ticks, plus `sync` / manager start when the pipeline or manager is down —
-    after which the exporter has received `k` (since the last reset). Because the
+    after which the exporter has acknowledged `k` itself (since the last reset). Because the
     claim is about every reachable state, no earlier step (failure, stop, reset,
     restart) can have disabled progress for good. -/
 theorem at_least_once {c : Cfg} (g : Good c) (hps : 1 ≤ c.ps) {s : State} (r : Reach c s)
     (hc : s.created = true) {k : Nat} (h1 : 1 ≤ k) (h2 : k ≤ s.nLogs) :
-    ∃ s', Steps c Label.recovery s s' ∧ Delivered s' k :=
+    ∃ s', Steps c Label.recovery s s' ∧ Acked s' k :=
   at_least_once_good g hps r hc h1 h2
 
 /-- What holds for the code as it is (every configuration): a running handler
-    that is not being stopped delivers every log beyond its cursor by failure-free
-    internal steps alone. (Logs at or below a stale cursor are the counterexample above.) -/
+    that is not being stopped gets every log beyond its cursor acknowledged by the
+    exporter, item by item, by failure-free internal steps alone. (Logs at or below a stale cursor are the counterexample above.) -/
 theorem at_least_once_partial {c : Cfg} (hps : 1 ≤ c.ps) {s : State} {h : Handler} {k : Nat} (r : Reach c s)
     (hh : s.handler = some h) (hns : h.stopReq = false) (h1 : h.last < k) (h2 : k ≤ s.nLogs) :
-    ∃ s', Steps c Label.progress s s' ∧ Delivered s' k :=
-  deliver_beyond_cursor hps (wf_reach r) hh hns h1 h2
+    ∃ s', Steps c Label.progress s s' ∧ Acked s' k :=
+  deliver_beyond_cursor hps (wf_reach r) (clean_reach r) hh hns h1 h2
 
 /-- The full liveness claim is false for the code as it is: from the reachable state
     `raceState2` (pipeline running, nothing pending) NO sequence of failure-free
     internal steps, however long, delivers log 1 or log 2 again. -/
 theorem at_least_once_counterexample {s' : State}
-    (st : Steps (Cfg.real 100) Label.progress raceState2 s') : ¬ Delivered s' 1 ∧ ¬ Delivered s' 2 :=
+    (st : Steps (Cfg.real 100) Label.progress raceState2 s') :
+    ¬ Delivered s' 1 ∧ ¬ Delivered s' 2 ∧ ¬ Acked s' 1 ∧ ¬ Acked s' 2 :=
   ⟨stuck_not_delivered (stuck_steps st stuck_raceState2) (by omega),
-   stuck_not_delivered (stuck_steps st stuck_raceState2) (by omega)⟩
+   stuck_not_delivered (stuck_steps st stuck_raceState2) (by omega),
+   stuck_not_acked (stuck_steps st stuck_raceState2) (by omega),
+   stuck_not_acked (stuck_steps st stuck_raceState2) (by omega)⟩
 
 /-- non-vacuity of the hypotheses: page size 1, three logs, handler down after a
     manager stop with an export failure on the way -/
 example : ∃ s, Reach (Cfg.real 1) s ∧ s.created = true ∧ s.nLogs = 3 ∧ s.handler = none ∧ s.mgrUp = false := by
-  refine ⟨_, reach_run (ls := [.append 3, .create, .fetch true, .accept .fail, .mgrStop]) Reach.init rfl,
+  refine ⟨_, reach_run (ls := [.append 3, .create, .fetch true, .tick, .accept .fail, .mgrStop]) Reach.init rfl,
     rfl, rfl, rfl, rfl⟩
 
 end Ledger.C33
